@@ -2,6 +2,9 @@ use crate::framework::Ctx;
 use serde_json::Value;
 
 pub mod gens;
+pub mod world;
+pub mod c01;
+pub mod c02;
 pub mod c05;
 
 pub struct Property {
@@ -11,5 +14,7 @@ pub struct Property {
 }
 
 pub const ALL: &[Property] = &[
+    Property { id: "C01", run: c01::run, replay: c01::replay },
+    Property { id: "C02", run: c02::run, replay: c02::replay },
     Property { id: "C05", run: c05::run, replay: c05::replay },
 ];
